@@ -7,7 +7,8 @@
      gcount g recs               total count recorded for n-gram g in a list of records;  occ g gs = occurrences of g in gs
      clean ss                    no sentence contains the ids of <unk> or <s> (CorpusCount skips special words) *)
 From Coq Require Import List NArith.
-From Kenlm Require Import C07.CountModel C07.CountProofs.
+From Kenlm Require Import C07.CountModel C07.CountProofs C07.CanonicalProofs.
+From Kenlm Require Import C16.SortModel C16.MainProofs.
 Import ListNotations.
 Local Open Scope N_scope.
 
@@ -26,3 +27,29 @@ Proof.
   intros order cap1 cap2 ss H1 H2 Hc g.
   rewrite (proj1 (count_corpus_spec order cap1 H1 ss Hc) g), (proj1 (count_corpus_spec order cap2 H2 ss Hc) g). reflexivity.
 Qed.
+
+(* The set of n-grams CorpusCount emits, the length of every record and the bound on every count do not mention the
+   capacity either (specials = the two count-0 unigrams <unk>, <s> added for order 1). *)
+Theorem C07_corpus_count_shape : forall order cap, (1 <= order)%nat -> (1 <= cap)%nat -> forall ss, clean ss ->
+  (forall g, In g (map fst (concat (count_corpus order cap ss))) <-> (occ g (corpus_grams order ss) <> 0 \/ In g (specials order))) /\
+  (forall r, In r (concat (count_corpus order cap ss)) -> length (fst r) = order /\ snd r <= N.of_nat (length (corpus_grams order ss))).
+Proof. exact count_corpus_shape. Qed.
+
+(* lmplz's first stage, CorpusCount >> Sort<SuffixOrder, CombineCounts>, end to end over the two models: for ANY two
+   capacities of the counting chain, ANY two accepted sort configurations (buffer_size, total_memory), lazy-memory
+   values, modes (Output / Merge-then-Output / StealCompleted) and ANY way the unstable block sort arranges equal
+   records, the record sequence handed to the next stage is THE SAME: it is the unique strictly SuffixOrder-increasing
+   list carrying the true count of every n-gram (corollary of C16_combiner_dupfree + uniqueness of strictly increasing
+   lists + C07_corpus_count_block_irrelevant).  The corpus has fewer than 2^64 tokens. *)
+Theorem C07_sort_canonical :
+  forall (order : nat) (ss : list (list N)) (es : N),
+  (1 <= order)%nat -> clean ss -> N.of_nat (length (corpus_grams order ss)) < 2 ^ 64 ->
+  forall cap1 m1 c1 b1 lazy1 runs1 out1 tr1 r1 cap2 m2 c2 b2 lazy2 runs2 out2 tr2 r2,
+  (1 <= cap1)%nat -> (1 <= cap2)%nat ->
+  sort_ctor es c1 = CtorOk b1 -> sort_ctor es c2 = CtorOk b2 ->
+  block_sorted (rec_lt (suffix_lt order)) (count_corpus order cap1 ss) runs1 ->
+  block_sorted (rec_lt (suffix_lt order)) (count_corpus order cap2 ss) runs2 ->
+  sort_dispatch (rec_lt (suffix_lt order)) (combine_counts order) es m1 b1 (cfg_total c1) lazy1 runs1 = (SortOk out1 tr1, r1) ->
+  sort_dispatch (rec_lt (suffix_lt order)) (combine_counts order) es m2 b2 (cfg_total c2) lazy2 runs2 = (SortOk out2 tr2, r2) ->
+  out1 = out2.
+Proof. exact sort_canonical. Qed.
